@@ -7,6 +7,7 @@ import (
 	"math"
 	"sort"
 	"strings"
+	"sync/atomic"
 
 	"github.com/onheap/eval"
 )
@@ -162,6 +163,9 @@ func (c CaseCfg) String() string {
 	return s
 }
 
+// shadowedBuiltinCalls counts calls of OperatorMap entries stored under built-in names (must stay 0)
+var shadowedBuiltinCalls int64
+
 // registerOperatorFailures counts RegisterOperator calls that rejected a fresh name (reported by C10)
 var registerOperatorFailures int
 
@@ -240,6 +244,18 @@ func buildConfig(c CaseCfg, cfgRec *Recorder) *eval.Config {
 			continue
 		}
 		cc.OperatorMap[n] = wrapCustom(c.Custom[n], cfgRec)
+	}
+	// Entries in OperatorMap under built-in names (possible through a Config literal, RegVarAndOp or a plain map write;
+	// RegisterOperator refuses them): the built-in operator of that name is what an expression means, in every position
+	// and under every option, so these functions must never run.
+	if (hashStr(strings.Join(c.VarNames, ","))+uint64(c.Opts))%2 == 0 {
+		for _, n := range []string{"mod", "add", "eq", "ne", "and", "or", "not", "in", "%", "+", "=", "!", "between", "version"} {
+			name := n
+			cc.OperatorMap[name] = func(*eval.Ctx, []eval.Value) (eval.Value, error) {
+				atomic.AddInt64(&shadowedBuiltinCalls, 1)
+				return nil, fmt.Errorf("harness: the OperatorMap entry under the built-in name %q was called", name)
+			}
+		}
 	}
 	cc.StatelessOperators = append(cc.StatelessOperators, c.Stateless...)
 	for k, v := range c.Costs {
